@@ -31,8 +31,8 @@ CHECKS = {
         "title": "Emission follows the configured schedule, independent of block cadence",
         "level": "exploration",
         "technique": "property-based testing (rapid): generated minter configurations x block partitions against an exact fixed-point reference schedule, plus an exact metamorphic twin (one block at the final instant)",
-        "tests": [T("TestC02", 3000, 20000, qshards=2)],
-        "rule": "cases = valid minter configuration (1-6 periods of none/linear/exponential kinds, listed in ascending or - one configuration in three - in a drawn permuted order, amounts from a boundary-biased mixture up to 10^36, "
+        "tests": [T("TestC02", 3000, 20000, qshards=2), T("TestC02Long", 1000, 2000, qshards=1)],
+        "rule": "TestC02Long: one linear period of 293-1000 years (longer than a time.Duration) starting between 1723 and 2123, then no minting; 3-12 blocks at whole seconds around start, end and inside; cumulative minted == Amount*(T-start)/(end-start) in exact arithmetic within Amount*10^-17+2, finished period == Amount. TestC02: cases = valid minter configuration (1-6 periods of none/linear/exponential kinds, listed in ascending or - one configuration in three - in a drawn permuted order, amounts from a boundary-biased mixture up to 10^36, "
                 "multipliers in [0,1], sub-ms jitter on period lengths) x sorted block instants drawn from schedule boundaries (+-0,1ns,1ms,1s), uniform points and repeats. "
                 "Non-trivial = at least 3 blocks, at least one block strictly inside a minting (linear/exponential) period and, for multi-period configurations, at least one period-boundary crossing. "
                 "Distinct = SHA-256 of (configuration, block instants).",
@@ -222,7 +222,8 @@ CHECKS = {
         "level": "exploration",
         "technique": "property-based differential testing (rapid): generated ABCI histories executed on two independently constructed applications (thorough: plus a replica in a second OS process), comparing app hashes, transaction results and events at every height",
         "tests": [T("TestC11", 25, 120, qshards=4, timeout=900), T("TestC11Upgrade", 300, 400, qshards=1)],
-        "rule": "TestC11Upgrade: generated pre-upgrade states (the C16 generator) are upgraded to v1.2.0 twice, as two replicas execute the upgrade block (keeper-level steps or the real upgrade handler), and the cfevesting, cfeminter, cfedistributor, bank, auth, params and upgrade stores must be byte-identical; non-trivial = the pool split applied or at least two owner records were migrated. TestC11: replicas per history: B fresh app in the same process; R process restarts (new app instance over the same database) after 1-3 drawn blocks; S also serves CheckTx / Simulate / gRPC queries for the coming transactions between blocks; C second OS process (1-4 histories per shard). cases = generated genesis (minter configuration, sub-distributor configuration, 1-4 vesting types, 0-3 genesis pools) + 5-25 blocks with dt in {1s,5s,11s,1min,1d,30d}, each carrying 0-4 signed SIGN_MODE_DIRECT transactions built against the live state: create pool, pool send, withdraw, direct vesting-account creation, split / move / move-by-denoms signed by previously created vesting accounts, MsgDelegate from vesting accounts, bank sends into distributor sources, cfesignature messages (unroutable on this tree), governance proposals carrying minter / distributor / vesting parameter updates followed by a validator-delegator yes vote and execution after the 10 s voting period, user-signed parameter updates, garbage bytes and wrong-sequence transactions. "
+        "plain_tests": ["TestRegressC11NodeFlags"],
+        "rule": "TestC11Upgrade: generated pre-upgrade states (the C16 generator) are upgraded to v1.2.0 twice, as two replicas execute the upgrade block (keeper-level steps or the real upgrade handler), and the cfevesting, cfeminter, cfedistributor, bank, auth, params and upgrade stores must be byte-identical; non-trivial = the pool split applied or at least two owner records were migrated. TestC11: replicas per history: F started with drawn node-local options (x/crisis invariants skipped at genesis, invariant check period 0-3); B fresh app in the same process; R process restarts (new app instance over the same database) after 1-3 drawn blocks; S also serves CheckTx / Simulate / gRPC queries for the coming transactions between blocks; C second OS process (1-4 histories per shard). cases = generated genesis (minter configuration, sub-distributor configuration, 1-4 vesting types, 0-3 genesis pools) + 5-25 blocks with dt in {1s,5s,11s,1min,1d,30d}, each carrying 0-4 signed SIGN_MODE_DIRECT transactions built against the live state: create pool, pool send, withdraw, direct vesting-account creation, split / move / move-by-denoms signed by previously created vesting accounts, MsgDelegate from vesting accounts, bank sends into distributor sources, cfesignature messages (unroutable on this tree), governance proposals carrying minter / distributor / vesting parameter updates followed by a validator-delegator yes vote and execution after the 10 s voting period, user-signed parameter updates, garbage bytes and wrong-sequence transactions. "
                 "Replica B is a separately constructed app fed the identical genesis bytes and transaction bytes. Compared per height: Commit app hash, every ResponseDeliverTx {code, codespace, data, gas used/wanted, events}, BeginBlock and EndBlock events, validator updates. Log strings are not compared (ABCI declares them non-deterministic), differences are counted. Non-trivial = at least one accepted vesting transaction and one rejected transaction. Distinct = SHA-256 of (genesis, history).",
         # fractions are taken over the cases of both tests; TestC11 contributes about a quarter of them
         "min_nontrivial_fraction": 0.3,
